@@ -55,6 +55,12 @@ MUTANTS = [
     {"id": "c08-a-n-empty-test-lt-one", "expect": "silent", "edits": [(C, "        if remain_len <= 0:\n            return type(self)()", "        if remain_len < 1:\n            return type(self)()")]},
     {"id": "c08-a-stop-defaults-to-len-minus-one", "expect": "fire", "edits": [(C, "        if end_pos is None:\n            end_pos = self.scrlen", "        if end_pos is None:\n            end_pos = self.scrlen - 1")]},
     {"id": "c08-a-width-minus-len-plus-one", "expect": "fire", "edits": [(C, "        filler_width = max(width - self.scrlen, 0)", "        filler_width = max(width - self.scrlen + 1, 0)")]},
+    # ---- equality (R08i)
+    {"id": "c08-e-chunk-eq-ignores-suffix", "expect": "fire", "edits": [(C, "                and self.text == other.text\n                and self.c_suffix == other.c_suffix)", "                and self.text == other.text)")]},
+    {"id": "c08-e-text-eq-no-length-test", "expect": "fire", "edits": [(C, "            if len(self.chunks) != len(other.chunks):\n                return False\n            return all(", "            return all(")]},
+    {"id": "c08-e-str-eq-ignores-colour", "expect": "fire", "edits": [(C, "            return p.is_plain() and p.text == other", "            return p.text == other")]},
+    {"id": "c08-e-empty-text-eq-any-str", "expect": "fire", "edits": [(C, "                return not self.chunks and not other", "                return not self.chunks")]},
+    {"id": "c08-e-n-len-test-reordered", "expect": "silent", "edits": [(C, "            if len(self.chunks) != 1:\n                return not self.chunks and not other", "            if 1 != len(self.chunks):\n                return not other and not self.chunks")]},
     {"id": "c08-n-tuple-copy", "expect": "silent", "edits": [(C, "            for part in list(other.chunks):", "            for part in tuple(other.chunks):")]},
     {"id": "c08-n-guarded-alias", "expect": "silent", "edits": [(C, "            for part in list(other.chunks):\n                self._append_chunk(part)", "            parts = other.chunks[:]\n            for part in parts:\n                self._append_chunk(part)")]},
     {"id": "c08-n-calc-len", "expect": "silent", "edits": [(C, "        result.scrlen = sum(len(c.text) for c in chunks_list)", "        result.scrlen = cls.calc_chunks_len(chunks_list)")]},
